@@ -228,7 +228,7 @@ func (c *Ctx) sel(arr T, idx T) T {
 		if d, ok := c.defOf[s]; ok {
 			s = d
 		}
-		if m, isIte := c.ites[s]; isIte && (os.Getenv("OWVC_NO_ITEPUSH") == "" || strings.HasPrefix(idx.S, "(selem ")) {
+		if m, isIte := c.ites[s]; isIte {
 			// a heap merged at a join: read both sides. When the object was not
 			// written on either side both reads resolve to the same earlier heap
 			// and the merge disappears (for elements of slices of structs the
